@@ -2,6 +2,7 @@
 // the statement-level oracles. Usage:
 //   harness run <Cxx> --tier quick|thorough --seed N --out DIR
 //   harness replay <Cxx> --case FILE --out DIR
+//   harness htmlvocab
 package main
 
 import (
@@ -9,6 +10,8 @@ import (
 	"flag"
 	"fmt"
 	"os"
+
+	"github.com/tsawler/tabula/htmldoc"
 
 	"verifharness/hx"
 
@@ -35,6 +38,12 @@ import (
 )
 
 func main() {
+	if len(os.Args) == 2 && os.Args[1] == "htmlvocab" {
+		// the compiled class/id patterns of htmldoc, for extract (Gen/HtmlVocab.lean)
+		b, _ := json.Marshal(htmldoc.VerifPatternSources())
+		fmt.Println(string(b))
+		return
+	}
 	if len(os.Args) < 3 {
 		fmt.Fprintln(os.Stderr, "usage: harness run|replay <Cxx> [flags]")
 		os.Exit(2)
